@@ -290,9 +290,9 @@ func (vr *variableResolver) resolve(ctx *ExecutionContext) (*Value, error) {
 			// Before resolving the pointer, let's see if we have a method to call
 			// Problem with resolving the pointer is we're changing the receiver
 			isFunc := false
-			if part.typ == varTypeIdent && !(current.Kind() == reflect.Ptr && current.IsNil()) && current.Type() != typeOfContext {
+			if part.typ == varTypeIdent && !(current.Kind() == reflect.Ptr && current.IsNil()) && !reachesContextMethod(current.Type(), part.s) {
 				// (no method is called on a nil pointer: a value method would panic, and a
-				// nil along the way yields nil. And none on a Context - the map type callers
+				// nil along the way yields nil. And none of a Context - the map type callers
 				// nest to build their data: its Update method writes the map, so a template
 				// could change the caller's Context and the set's Globals; a Context is a map
 				// of names to a template, nothing else)
@@ -646,6 +646,33 @@ func (vr *variableResolver) Evaluate(ctx *ExecutionContext) (*Value, *Error) {
 		return AsValue(nil), ctx.Error(errorText(err), vr.locationToken)
 	}
 	return value, nil
+}
+
+// reachesContextMethod reports whether name is a method of Context that a value of type
+// t has as well: t is Context, points to one (the methods of Context are in the method
+// set of *Context), or is a struct that embeds one of these (they are promoted).
+func reachesContextMethod(t reflect.Type, name string) bool {
+	if _, has := typeOfContext.MethodByName(name); !has {
+		return false
+	}
+	return holdsContext(t, 0)
+}
+
+func holdsContext(t reflect.Type, depth int) bool {
+	for hops := 0; t.Kind() == reflect.Ptr && hops < maxPointerHops; hops++ {
+		t = t.Elem()
+	}
+	if t == typeOfContext {
+		return true
+	}
+	if t.Kind() == reflect.Struct && depth < 8 {
+		for i := 0; i < t.NumField(); i++ {
+			if f := t.Field(i); f.Anonymous && holdsContext(f.Type, depth+1) {
+				return true
+			}
+		}
+	}
+	return false
 }
 
 // errorText is err.Error(). The error may be one a context function returned: its Error
